@@ -1,4 +1,7 @@
+#[cfg(not(torrent_bootstrap_verif))]
 use std::{sync::{Arc, Mutex, MutexGuard}, thread::{self, JoinHandle}};
+#[cfg(torrent_bootstrap_verif)]
+use crate::verif::{sync::{Arc, Mutex, MutexGuard}, thread::{self, JoinHandle}};
 
 use crate::orchestrator::OrchestrationPiece;
 
@@ -24,6 +27,9 @@ pub fn run(items: Vec<OrchestrationPiece>, solver: PieceSolver, thread_count: us
     }
 
     balance(&mut (entries.iter_mut().collect::<Vec<_>>()));
+
+    #[cfg(torrent_bootstrap_verif)]
+    crate::verif::probe::queues("init", entries.len(), &entries.iter().map(|queue| crate::verif::probe::queue_keys(queue)).collect::<Vec<_>>());
 
     // Setup state and start
     let locks: Vec<_> = entries
@@ -120,6 +126,9 @@ fn run_internal(mut solver: PieceSolver, thread_id: usize, local: Arc<Mutex<Vec<
                     thread_guards[thread_index].shrink_to_fit();
                     deactivated_threads += 1;
                 }
+
+                #[cfg(torrent_bootstrap_verif)]
+                crate::verif::probe::queues("rebalance", state.active_threads - deactivated_threads, &thread_guards.iter().map(|queue| crate::verif::probe::queue_keys(queue)).collect::<Vec<_>>());
 
                 drop(thread_guards);
                 state.active_threads -= deactivated_threads;
